@@ -341,6 +341,37 @@ class Interp:
             stack.extend(ast.iter_child_nodes(n))
         return False
 
+    def make_local_class(self, node, env, g, fn):
+        """a class statement inside an interpreted function: the class object is built natively from the same source
+        lines (so that its methods are real functions whose source inspect finds in the real file, and which are
+        interpreted like every other repository function when called); free names are taken from the enclosing scopes"""
+        real_fn = getattr(fn, "__func__", fn)
+        try:
+            file = inspect.getsourcefile(real_fn)
+            first = real_fn.__code__.co_firstlineno
+        except Exception as ex:
+            raise Undecided(f"local class {node.name}: {ex}")
+        ns = dict(g)
+        scope = env
+        chain = []
+        while scope is not None:
+            chain.append(scope)
+            scope = scope.parent
+        for sc in reversed(chain):
+            for k, v in sc.items():
+                if not k.startswith("__") and ops.all_concrete([v]):
+                    ns[k] = v
+        import copy as _copy
+        cnode = _copy.deepcopy(node)
+        ast.increment_lineno(cnode, first - 1)
+        mod = ast.Module(body=[cnode], type_ignores=[])
+        ast.fix_missing_locations(mod)
+        try:
+            exec(compile(mod, file or "<local class>", "exec"), ns)
+        except Exception as ex:
+            raise Undecided(f"local class {node.name}: {type(ex).__name__}: {ex}")
+        return ns[node.name]
+
     # ------------------------------------------------------------------ statements
     def exec_block(self, stmts, env, g, fn):
         for s in stmts:
@@ -417,6 +448,8 @@ class Interp:
                 raise PyRaise(AssertionError(), implicit=True, where=f"assert:{getattr(fn, '__qualname__', '?')}:{s.lineno}")
         elif isinstance(s, ast.FunctionDef):
             env[s.name] = Closure(s, env, g, fn)
+        elif isinstance(s, ast.ClassDef):
+            env[s.name] = self.make_local_class(s, env, g, fn)
         elif isinstance(s, ast.Delete):
             for t in s.targets:
                 self.delete(t, env, g, fn)
@@ -448,6 +481,10 @@ class Interp:
             if ops.truth(self, c):
                 self.eval(call, env, g, fn)
             return True
+        hazard = self.format_hazard(call.args[0], env, g, fn) if call.args else None
+        if hazard is not None and self.e.branch(c.z, likely=False):
+            # building the message itself fails (a format code that does not fit the type of the value)
+            raise PyRaise(hazard, implicit=True, where=f"format:{getattr(fn, '__qualname__', '?')}:{s.lineno}")
         cat = UserWarning
         if len(call.args) > 1:
             cat = self.eval(call.args[1], env, g, fn)
@@ -456,6 +493,40 @@ class Interp:
                 cat = self.eval(k.value, env, g, fn)
         self.e.event("warn", cat, c.z)
         return True
+
+    def format_hazard(self, node, env, g, fn):
+        """an f-string whose format specification cannot be applied to the (symbolic) value it formats: the exception
+        Python raises when the string is built, else None.  Only concrete format specifications are looked at."""
+        if not isinstance(node, ast.JoinedStr):
+            return None
+        for part in node.values:
+            if not isinstance(part, ast.FormattedValue) or part.format_spec is None or part.conversion != -1:
+                continue
+            try:
+                spec = self.eval(part.format_spec, env, g, fn)
+                val = self.eval(part.value, env, g, fn)
+            except (PyRaise, Undecided):
+                continue
+            hz = self.spec_hazard(val, spec)
+            if hz is not None:
+                return hz
+        return None
+
+    @staticmethod
+    def spec_hazard(val, spec):
+        if not isinstance(spec, str) or spec == "" or isinstance(val, Opaque):
+            return None
+        t = ops.pytype(val)
+        code = spec[-1] if spec[-1].isalpha() or spec[-1] == "%" else ""
+        if t in (bytes, bytearray):
+            return TypeError(f"unsupported format string passed to {t.__name__}.__format__")
+        if t is str and code not in ("", "s"):
+            return ValueError(f"Unknown format code '{code}' for object of type 'str'")
+        if t is int and code == "s":
+            return ValueError("Unknown format code 's' for object of type 'int'")
+        if t is float and code in ("x", "X", "d", "b", "o", "c", "s"):
+            return ValueError(f"Unknown format code '{code}' for object of type 'float'")
+        return None
 
     def exec_with(self, s, env, g, fn):
         # only context managers with a model (warnings.catch_warnings) or concrete native ones
@@ -784,6 +855,13 @@ class Interp:
                 symbolic_ints = True
                 continue
             if not ops.deep_concrete(val):
+                if v.format_spec is not None and v.conversion == -1:
+                    try:
+                        hz = self.spec_hazard(val, self.eval(v.format_spec, env, g, fn))
+                    except (PyRaise, Undecided):
+                        hz = None
+                    if hz is not None:
+                        raise PyRaise(hz, implicit=True, where="format")
                 opaque = True
                 continue
             try:
